@@ -44,6 +44,10 @@ type RangeVectorCursor struct {
 	startSample   int64 // start time for prom sampling
 	endSample     int64 // end time for prom sampling
 	firstStep     int64 // first step of each record for prom sampling
+
+	// currFiltered is the current record without its staleness markers: inNextWindow* decides on it
+	// and hands it to reduce.
+	currFiltered *record.Record
 }
 
 func NewRangeVectorCursor(input comm.KeyCursor, schema *executor.QuerySchema, globalPool *record.RecordPool, tr util.TimeRange) *RangeVectorCursor {
@@ -84,32 +88,68 @@ func (c *RangeVectorCursor) SetSchema(inSchema, outSchema record.Schemas, exprOp
 }
 
 func (c *RangeVectorCursor) reduce(inRecord, newRecord *record.Record) {
-	inRecord = FilterRangeNANPoint(inRecord)
+	if c.currFiltered != nil {
+		inRecord, c.currFiltered = c.currFiltered, nil
+	} else {
+		inRecord = FilterRangeNANPoint(inRecord)
+	}
 	c.getIntervalIndex(inRecord)
 	c.setReducerParams()
 	c.coProcessor.WorkOnRecord(inRecord, newRecord, c.reducerParams)
 	c.resetReducerParams()
 }
 
+// peekSamples looks at the next record that holds samples. The staleness markers take no part in a range
+// vector, so the windows are decided on the records without them, and a record of nothing but markers
+// (e.g. a memtable that holds only the marker of a series that ended) is dropped here: as a record without
+// rows it would make the current record hold its last window back for a record that never comes.
+// Reading beyond the dropped record may reuse the memory of the current record, which is copied first.
+func (c *RangeVectorCursor) peekSamples(curr *record.Record, withInfo bool) (*record.Record, *record.Record, *comm.FileInfo, error) {
+	filtered := FilterRangeNANPoint(curr)
+	for {
+		var next *record.Record
+		var info *comm.FileInfo
+		var err error
+		if withInfo {
+			next, info, err = c.peekRecordWithInfo()
+		} else {
+			next, _, err = c.peekRecord()
+		}
+		if err != nil || next == nil || (withInfo && c.fileInfo != nil && info != c.fileInfo) {
+			return filtered, next, info, err
+		}
+		if nextFiltered := FilterRangeNANPoint(next); nextFiltered.RowNums() > 0 {
+			c.bufRecord = nextFiltered
+			return filtered, nextFiltered, info, nil
+		}
+		if filtered == curr {
+			filtered = curr.Copy(true, nil, curr.Schema)
+		}
+		c.bufRecord = nil
+	}
+}
+
 func (c *RangeVectorCursor) inNextWindowWithInfo(currRecord *record.Record) error {
-	nextRecord, info, err := c.peekRecordWithInfo()
+	currRecord, nextRecord, info, err := c.peekSamples(currRecord, true)
 	if err != nil {
 		return err
 	}
 	// padding is required before and after the last rec. Padding is required only before the previous rec.
 	c.reducerParams.lastRec = (nextRecord == nil) || (c.fileInfo != nil && info != c.fileInfo)
 	c.inNextWin = isSameWindow(currRecord, nextRecord, c.fileInfo, info, c.schema, c.startSample, c.endSample, c.step, c.rangeDuration)
+	c.currFiltered = currRecord
 	return nil
 }
 
 func (c *RangeVectorCursor) inNextWindow(currRecord *record.Record) error {
-	nextRecord, _, err := c.peekRecord()
+	currRecord, nextRecord, _, err := c.peekSamples(currRecord, false)
 	if err != nil {
 		return err
 	}
 	// padding is required before and after the last rec. Padding is required only before the previous rec.
 	c.reducerParams.lastRec = nextRecord == nil
 	c.inNextWin = isSameWindow(currRecord, nextRecord, nil, nil, c.schema, c.startSample, c.endSample, c.step, c.rangeDuration)
+	c.currFiltered = currRecord
 	return nil
 }
 
